@@ -49,7 +49,7 @@ def _c(enc):
     return ALIASES.get(enc, enc)
 
 
-TEXTS_Q = ['', 'a', 'x\xe9y', 'é€\U0001d11e', '@charset "E";a', '@charset "E"', "@charset 'E';", 'x@charset "E";',  '@charset "E";aé', '@media x{}', '@charset "E', "@charset 'E';a{}"]
+TEXTS_Q = ['', 'a', 'x\xe9y', '@CHARSET "E";a\xe9', 'é€\U0001d11e', '@charset "E";a', '@charset "E"', "@charset 'E';", 'x@charset "E";',  '@charset "E";aé', '@media x{}', '@charset "E', "@charset 'E';a{}"]
 TEXTS_M = TEXTS_Q + ['@charset "E";é€\U0001d11e{a:"é"}', '@c', '@import "x";', 'a\ufeffb', '@charset "E";\n@charset "x";', 'a{b:c}' * 3]
 # quick and thorough differed in the text menu only and both ran in seconds: quick now uses the full former menu, thorough a longer one
 TEXTS_T = TEXTS_M + ['@charset "E";' + 'ab' * 12, 'é' * 9, '\n@charset "E";a', ' @charset "E";', '@charset "E";@charset "E";', '/*é*/@charset "E";a', '@charset "E";\r\n€{}', '@CHARSET "E";a', '@charset  "E";a']
